@@ -8,10 +8,17 @@ import (
 	"fmt"
 	"go/ast"
 	"go/token"
+	"os"
+	"regexp"
 	"sort"
 	"strconv"
 	"strings"
 )
+
+// the bodies of (*HINFO).parse / (*ISDN).parse and of (*UINFO).parse as src() prints them (white space removed), with the
+// type name in the error text and the field names left open; any other change makes the type "other"
+var pairBodyRe = regexp.MustCompile(`^\{chunks,e:=endingToTxtSlice\(c,"bad([A-Z0-9]+)Fields"\)ife!=nil\{returne\}ifln:=len\(chunks\);ln==0\{returnnil\}elseifln==1\{ifout:=strings\.Fields\(chunks\[0\]\);len\(out\)>1\{chunks=out\}else\{chunks=append\(chunks,""\)\}\}rr\.([A-Za-z]+)=chunks\[0\]rr\.([A-Za-z]+)=strings\.Join\(chunks\[1:\],""\)returnnil\}$`)
+var firstBodyRe = regexp.MustCompile(`^\{s,e:=endingToTxtSlice\(c,"bad([A-Z0-9]+)([A-Za-z]+)"\)ife!=nil\{returne\}ifln:=len\(s\);ln==0\{returnnil\}rr\.([A-Za-z]+)=s\[0\]returnnil\}$`)
 
 type tstep struct {
 	Kind  string // uint | name | endstr | txt | blank | slurp | other
@@ -42,6 +49,10 @@ func (s tstep) lean() string {
 		return ".endStr false"
 	case "txt":
 		return ".txt"
+	case "txtpair":
+		return ".txtPair"
+	case "txtfirst":
+		return ".txtFirst"
 	case "blank":
 		return ".blank"
 	case "slurp":
@@ -78,6 +89,18 @@ func isCall(e ast.Expr, recv, name string) (*ast.CallExpr, bool) {
 
 // parsePlanOf translates one parse body; ok=false when an unknown idiom occurs.
 func (p *pkgInfo) parsePlanOf(fd *ast.FuncDecl, depth int) ([]tstep, bool) {
+	// whole bodies built on endingToTxtSlice: two string fields (HINFO, ISDN), one string field (UINFO)
+	if body := p.src(fd.Body); true {
+		if os.Getenv("EXTRACT_DEBUG") != "" && strings.Contains(body, "endingToTxtSlice") {
+			fmt.Fprintln(os.Stderr, body)
+		}
+		if m := pairBodyRe.FindStringSubmatch(body); m != nil {
+			return []tstep{{Kind: "txtpair", Field: m[2] + "," + m[3]}}, true
+		}
+		if m := firstBodyRe.FindStringSubmatch(body); m != nil && strings.HasSuffix(m[1]+m[2], m[3]) {
+			return []tstep{{Kind: "txtfirst", Field: m[3]}}, true
+		}
+	}
 	var out []tstep
 	uintVar, uintErr, uintBits := "", "", 0 // the last ParseUint: value variable, error variable, width
 	nameVar, nameOk := "", ""               // the last toAbsoluteName: name variable, ok variable
@@ -341,6 +364,25 @@ func (p *pkgInfo) printPlanOf(fd *ast.FuncDecl, typ string) ([]tstep, bool) {
 		if c, ok := isCall(l, "", "sprintTxt"); ok && len(c.Args) == 1 && rrField(c.Args[0]) != "" {
 			out = append(out, tstep{Kind: "txt", Field: rrField(c.Args[0])})
 			continue
+		}
+		if c, ok := isCall(l, "", "sprintTxt"); ok && len(c.Args) == 1 {
+			// sprintTxt([]string{rr.F, rr.G}) / sprintTxt([]string{rr.F})
+			if cl, ok := c.Args[0].(*ast.CompositeLit); ok && p.src(cl.Type) == "[]string" {
+				var fs []string
+				for _, e := range cl.Elts {
+					if f := rrField(e); f != "" {
+						fs = append(fs, f)
+					}
+				}
+				if len(fs) == len(cl.Elts) && len(fs) == 2 {
+					out = append(out, tstep{Kind: "txtpair", Field: fs[0] + "," + fs[1]})
+					continue
+				}
+				if len(fs) == len(cl.Elts) && len(fs) == 1 {
+					out = append(out, tstep{Kind: "txtfirst", Field: fs[0]})
+					continue
+				}
+			}
 		}
 		if c, ok := isCall(l, "strings", "ToUpper"); ok && len(c.Args) == 1 && rrField(c.Args[0]) != "" {
 			out = append(out, tstep{Kind: "endstr", Field: rrField(c.Args[0]), Upper: true})
